@@ -98,7 +98,8 @@ type Client struct {
 	quit chan struct{}
 
 	aborted        bool
-	Pinged         bool // the h2ping step has seen its acknowledgement
+	Pinged         bool   // the h2ping step has seen its acknowledgement
+	TunnelEcho     []byte // bytes echoed back through an upgraded connection
 	stalled        bool
 	AbortedAt      time.Duration
 	ConnectedAt    time.Duration
@@ -379,7 +380,7 @@ func (c *Client) exec(s *Step) error {
 			c.W.mu.Lock()
 			got := false
 			for _, rf := range c.Recv {
-				if rf.F.Type == FPing && rf.F.Flags&FlagAck != 0 && len(rf.F.Payload) == 8 && rf.F.Payload[0] == 0xfc {
+				if rf.F.Type == FPing && rf.F.Flags&FlagAck != 0 && len(rf.F.Payload) == 8 && rf.F.Payload[0] == 0xfc && (len(s.Streams) == 0 || uint32(rf.F.Payload[1]) == s.Streams[0]) {
 					got = true
 				}
 			}
@@ -401,6 +402,27 @@ func (c *Client) exec(s *Step) error {
 				return fmt.Errorf("aborted")
 			}
 		}
+	case "tunnel":
+		// after a protocol upgrade: send the bytes, read as many echoed bytes back
+		if c.tls == nil {
+			return fmt.Errorf("not connected")
+		}
+		want := 0
+		for _, p := range s.Pieces {
+			if _, err := c.tls.Write(p); err != nil {
+				return err
+			}
+			want += len(p)
+		}
+		got := make([]byte, want)
+		n, err := io.ReadFull(c.br, got)
+		c.W.mu.Lock()
+		c.TunnelEcho = append(c.TunnelEcho, got[:n]...)
+		if err == nil {
+			c.W.Probes["tunnel_message_echoed"]++
+		}
+		c.W.mu.Unlock()
+		return err
 	case "sleep":
 		// the client does nothing for DelayMS of simulated time (the controller advances the
 		// clock when nothing else is enabled)
